@@ -79,6 +79,13 @@ func (x *Exec) keyVal(st *State, key *Term, kt types.Type) Val {
 
 func (x *Exec) mapComp(st *State, mt *types.Map, what string, leaf Sort) (string, *Term) {
 	key := compKeyMap(mt, what)
+	if strings.HasPrefix(what, ".val") {
+		for _, l := range x.Sh.Leaves(mt.Elem()) {
+			if ".val"+l.Suffix == what {
+				x.noteLeaf(key, l)
+			}
+		}
+	}
 	var s Sort
 	if what == ".len" {
 		s = ArrSort(SInt, SInt)
@@ -103,6 +110,11 @@ func (x *Exec) mapLen(st *State, mt *types.Map, m *Term) *Term {
 	_, ln := x.mapComp(st, mt, ".len", SInt)
 	l := c.Select(ln, m)
 	x.assume(st, c.And(c.Le(c.Int(0), l), c.Implies(c.Eq(m, c.Int(0)), c.Eq(l, c.Int(0)))))
+	// model invariant of maps: the size is the number of present keys; in particular a present key implies size > 0
+	_, has := x.mapComp(st, mt, ".has", SBool)
+	k := c.NewBound("k", SInt)
+	sel := c.Select(c.Select(has, m), k)
+	x.assume(st, c.Forall([]*Term{k}, c.Implies(sel, c.Lt(c.Int(0), l)), []*Term{sel}))
 	return l
 }
 
